@@ -50,7 +50,7 @@ Hypothesis Ha : allocate p h k pl ks = Some (h', a).
 Definition newcell : cell := Cell a k pl ks 0.
 
 (* the heap after the optional collection *)
-Lemma alloc_mid : exists h1, inv h1 L /\ (h1 = h \/ collect p h = Some h1) /\
+Lemma alloc_mid : exists h1, inv h1 L /\ ((ff h < List.length (cells h))%nat /\ h1 = h \/ (List.length (cells h) <= ff h)%nat /\ collect p h = Some h1) /\
   ((ff h1 < List.length (cells h1))%nat /\ (exists c rest, free h1 = c :: rest /\ a = box c /\
      cells h' = used h1 ++ newcell :: rest /\ ff h' = S (ff h1) /\ next h' = next h1 /\ symtab h' = symtab h1)
    \/ (List.length (cells h1) <= ff h1)%nat /\ a = next h1 /\
@@ -63,7 +63,7 @@ Proof.
   assert (Hinv1 : inv h1 L).
   { destruct (Nat.leb (List.length (cells h)) (ff h)); [eapply inv_collect; eassumption|injection E1 as <-; exact Hinv]. }
   split; [exact Hinv1|]. split.
-  { destruct (Nat.leb (List.length (cells h)) (ff h)); [right; exact E1|left; congruence]. }
+  { destruct (Nat.leb_spec (List.length (cells h)) (ff h)); [right; split; [assumption|exact E1]|left; split; [assumption|congruence]]. }
   destruct (Nat.ltb_spec (ff h1) (List.length (cells h1))) as [Hlt|Hge].
   - left. split; [exact Hlt|]. destruct (split_at_ff h1 Hlt) as (c & rest & Hfree & Hcells & Hlen & Hnth).
     rewrite Hnth in Ha. injection Ha as <- <-. exists c, rest.
@@ -97,7 +97,7 @@ Hypothesis Ha : allocate p h k pl ks = Some (h', a).
 Notation nc := (newcell k pl ks a).
 
 Theorem alloc_spec : exists h1, inv h1 L /\
-  (h1 = h \/ collect p h = Some h1) /\
+  ((ff h < List.length (cells h))%nat /\ h1 = h \/ (List.length (cells h) <= ff h)%nat /\ collect p h = Some h1) /\
   used h' = used h1 ++ [nc] /\ inv h' L /\ a <> 0 /\ symtab h' = symtab h1 /\
   ~ In a (boxes (used h1)).
 Proof.
